@@ -139,6 +139,7 @@ fn cancel() -> RunResult {
         move || {
             let mut pb = ProactorBuilder::new();
             pb.capacity(capacity);
+            draw_driver(&mut pb);
             let rt = compio_runtime::Runtime::builder().with_proactor(pb).build().expect("runtime");
             rt.block_on(async {
                 let start = Instant::now();
@@ -156,7 +157,7 @@ fn cancel() -> RunResult {
                     enum Res {
                         Unix(Rc<compio_net::UnixStream>),
                         Pipe(compio_fs::pipe::Receiver),
-                        Listener(compio_net::TcpListener),
+                        Listener(compio_net::UnixListener),
                     }
                     let res = match v.kind {
                         Kind::UnixRecv | Kind::Multi => {
@@ -195,12 +196,17 @@ fn cancel() -> RunResult {
                             Res::Pipe(rx)
                         }
                         Kind::Accept => {
-                            let l = compio_net::TcpListener::bind("127.0.0.1:0").await.expect("bind");
-                            let addr = l.local_addr().expect("addr");
+                            // an abstract Unix address unique to this process and run: nobody else can connect to it
+                            // (loopback TCP ports are shared with the other worker processes)
+                            use std::os::{linux::net::SocketAddrExt, unix::net::SocketAddr};
+                            static N: std::sync::atomic::AtomicU64 = std::sync::atomic::AtomicU64::new(0);
+                            let name = format!("verif-k-{}-{}", std::process::id(), N.fetch_add(1, std::sync::atomic::Ordering::Relaxed));
+                            let addr = SocketAddr::from_abstract_name(name.as_bytes()).expect("abstract address");
+                            let l = compio_net::UnixListener::from_std(std::os::unix::net::UnixListener::bind_addr(&addr).expect("bind")).expect("from_std");
                             if let Some((at, _)) = v.data {
                                 let keep = keep.clone();
                                 simkernel::at(Duration::from_micros(at), format!("a client connects to victim {i}'s listener"), move || {
-                                    if let Ok(s) = std::net::TcpStream::connect(addr) {
+                                    if let Ok(s) = std::os::unix::net::UnixStream::connect_addr(&addr) {
                                         keep.borrow_mut().push(Box::new(s));
                                     }
                                 });
